@@ -76,7 +76,12 @@ def job_step(kind, n, op, route='ctor'):
                     for f in bad:
                         if hasattr(f, 'metadata'):
                             f.metadata.pop('order_label', None)
-                    cad = CAD.OrderedCadence(order=ORDER) if kind == 'ordered' else CAD.Cadence()
+                    if route == 'overwrite':
+                        # a cadence that was constructed with t_overwrite=True (empty), and then filled / edited by hand:
+                        # its aggregates still describe the frames it holds
+                        cad = CAD.Cadence(t_slew=5.5, t_overwrite=True)
+                    else:
+                        cad = CAD.OrderedCadence(order=ORDER) if kind == 'ordered' else CAD.Cadence()
                     cad.frames = [ok[s] for s in st]
                     ref = list(cad.frames)
                     src = None
@@ -307,7 +312,10 @@ def _replay_step_form(p, conv):
         f.metadata.pop('order_label', None)
         if p['lab'][k]:
             f.metadata['order_label'] = 'Z'
-    cad = CAD.OrderedCadence(order=ORDER) if p['kind'] == 'ordered' else CAD.Cadence()
+    if p.get('route') == 'overwrite':
+        cad = CAD.Cadence(t_slew=5.5, t_overwrite=True)
+    else:
+        cad = CAD.OrderedCadence(order=ORDER) if p['kind'] == 'ordered' else CAD.Cadence()
     cad.frames = [ok[s] for s in p['state']]
     ref = list(cad.frames)
     src = None
@@ -388,6 +396,8 @@ def main():
             jobs.append(('job_step', ('ordered', n, op, 'from_data')))
         for op in ('append', 'insert', 'setitem', 'delitem', 'pop'):
             jobs.append(('job_step', ('plain', n, op, 'from_cadence')))
+    for op in ('append', 'delitem', 'getitem'):
+        jobs.append(('job_step', ('plain', 2, op, 'overwrite')))
     ck.run_jobs('props.C18', jobs, timeout_s=1500)
     ck.finish()
 
